@@ -22,10 +22,11 @@ MAX_CEX_PER_LABEL = 6
 
 
 class Template:
-    def __init__(self, tid, fn, args=(), max_paths=6000, budget_s=None, replay=True, timeout_ms=None, twin=None):
+    def __init__(self, tid, fn, args=(), max_paths=6000, budget_s=None, replay=True, timeout_ms=None, twin=None, extra_witnesses=False):
         self.tid, self.fn, self.args = tid, fn, tuple(args)
         self.max_paths, self.budget_s, self.replay, self.timeout_ms = max_paths, budget_s, replay, timeout_ms
         self.twin = twin  # label of a biconditional assertion for which the negated-oracle twin must be refuted
+        self.extra_witnesses = extra_witnesses  # concrete-only assertions are also evaluated on all-True / all-False preferring witnesses
 
 
 # ------------------------------------------------------------------------------------------------ worker side
@@ -111,9 +112,26 @@ def explore_template(t: Template, tier: str, seed: int):
                 continue
             strip = lambda d: {k: x for k, x in (d or {}).items() if not str(k).startswith("_")}  # noqa: E731
             f_sym, f_real = H.jsonable(strip(facts)), H.jsonable(strip(conc.get("facts", {})))
+
+            def real_side_violations():
+                """the model and the real code disagree on this path witness.  That is a defect of the model (harness error) —
+                unless the REAL code violates a labelled assertion on the witness: that is a counterexample in its own right
+                (a solver-produced input on which the real code breaks the property), whatever the model says."""
+                sym_labels = {l for l, _ in asserts}
+                n = 0
+                for label, val in conc.get("asserts", []):
+                    if label in sym_labels and not bool(val):
+                        n += 1
+                        if sum(1 for c in res["cex"] if c["label"] == label) < MAX_CEX_PER_LABEL:
+                            res["cex"].append(dict(tid=t.tid, label=label, vals=H.jsonable(wvals), facts=H.jsonable(conc.get("facts", {})), confirmed=True,
+                                                   detail="the real code violates the assertion on the path witness although the environment model does not "
+                                                          "(the code left the behaviour the model describes)", args=H.jsonable(list(t.args))))
+                return n
+
             if not _cmp_struct(c_sym, c_real) or not _cmp_struct(f_sym, f_real):
-                res["mismatches"].append(dict(what="observation differs", sym=H.jsonable(c_sym), real=H.jsonable(c_real),
-                                              facts_sym=f_sym, facts_real=f_real, vals=H.jsonable(wvals)))
+                if not real_side_violations():
+                    res["mismatches"].append(dict(what="observation differs", sym=H.jsonable(c_sym), real=H.jsonable(c_real),
+                                                  facts_sym=f_sym, facts_real=f_real, vals=H.jsonable(wvals)))
                 continue
             # the assertion values themselves must agree under the witness (validates output-side modelling)
             cl = dict(conc.get("asserts", []))
@@ -127,8 +145,9 @@ def explore_template(t: Template, tier: str, seed: int):
                     bad = (label, sv, bool(cl[label]))
                     break
             if bad:
-                res["mismatches"].append(dict(what="assertion value differs under path witness", label=bad[0], sym=bad[1],
-                                              real=bad[2], vals=H.jsonable(wvals), facts=f_sym))
+                if not (bad[1] and not bad[2] and real_side_violations()):
+                    res["mismatches"].append(dict(what="assertion value differs under path witness", label=bad[0], sym=bad[1],
+                                                  real=bad[2], vals=H.jsonable(wvals), facts=f_sym))
                 continue
             res["replayed_ok"] += 1
             # concrete complement: assertions that only exist on the real side (text-level clauses no solver term can
@@ -138,6 +157,23 @@ def explore_template(t: Template, tier: str, seed: int):
                 if label not in sym_labels and not bool(val) and sum(1 for c in res["cex"] if c["label"] == label) < MAX_CEX_PER_LABEL:
                     res["cex"].append(dict(tid=t.tid, label=label, vals=H.jsonable(wvals), facts=H.jsonable(conc.get("facts", {})), confirmed=True,
                                            detail="concrete complement on the path witness (not solver-decided)", args=H.jsonable(list(t.args))))
+        if t.replay and t.extra_witnesses and conc is not None:
+            # the concrete-only assertions (text-level clauses) looked at away from the defaults: two more witnesses of this path
+            sym_labels = {l for l, _ in asserts}
+            e._scopes0 = e.solver.num_scopes()
+            for pref in (True, False):
+                m2 = e.witness_preferring(p, list(decls.values()), pref)
+                if m2 is None:
+                    continue
+                w2 = H.vals_from_model(m2, decls)
+                try:
+                    c2 = t.fn(H.V(None, w2), *t.args)
+                except BaseException:  # noqa: BLE001
+                    continue
+                for label, val in c2.get("asserts", []):
+                    if label not in sym_labels and not bool(val) and sum(1 for c in res["cex"] if c["label"] == label) < MAX_CEX_PER_LABEL:
+                        res["cex"].append(dict(tid=t.tid, label=label, vals=H.jsonable(w2), facts=H.jsonable(c2.get("facts", {})), confirmed=True,
+                                               detail="concrete complement on a second witness of the path (not solver-decided)", args=H.jsonable(list(t.args))))
         if len(res["samples"]) < 2:
             res["samples"].append(dict(template=t.tid, inputs=H.jsonable(wvals), facts=H.jsonable(facts),
                                        observation=H.jsonable(H.comparable(out.get("obs"), wvals)) if out.get("obs") else None,
